@@ -204,6 +204,11 @@ class Names:
     def type_name(self, prefix: str) -> str:
         self.n += 1
         w = self.rng.choice(WORDS).capitalize()
+        # several spellings per kind (picked without consuming randomness) so that the ALPHABETICAL order of interface, object, union and input names is not fixed
+        # by their kind: `sorted(...)` over type names decides class order, union member order and which class is "first" in many places of a generator
+        alt = {"If": ["If", "Zi", "Ab"], "Ob": ["Ob", "Ty", "Ac"], "Un": ["Un", "Au"], "In": ["In", "Zn"]}.get(prefix)
+        if alt:
+            prefix = alt[(self.n + len(w)) % len(alt)]
         return self._uniq("%s%s%d" % (prefix, w, self.n))
 
     DIRTY_POOLS = {
